@@ -726,6 +726,33 @@ def check(ctx, cases, outs):
     fl = [k for k in li if res[k] and "certif" in res[k] and _key(cases[k], outs[k]) not in _ATTR]
     if fl:
         _attribute_batch(ctx, [cases[k] for k in fl], [outs[k] for k in fl])
+    # the hypotheses that the Coq development leaves to the per-instance check, evaluated on every case:
+    # (H-total) the repaired model (Fixed, eps 0 at :202) returns - C01_lapjv_fixed_total is NOT proved;
+    # (H-2cand) every row lists >= 2 candidates - the premise under which C01_lapjv_fixed_optimal is proved.  Where both
+    # hold the theorem says the model's result is optimal: the extracted model is checked against that (a disagreement
+    # would be a bug of extraction / harness, reported as a failure of this check).
+    if li:
+        fm = ctx.run_model("entry_lapjv", [_lap_arg(cases[k], 1, 0, EPS) for k in li])
+        fm = [None if isinstance(m, dict) or m == [] else tuple(m) for m in fm]
+        cert = _certified(ctx, [cases[k] for k in li], fm)
+        for k, m, g in zip(li, fm, cert):
+            rows = {}
+            for t in cases[k]["tri"]:
+                rows[t[0]] = rows.get(t[0], 0) + 1
+            two = min(rows.values()) >= 2
+            ctx.count("hyp:rows>=2-candidates" if two else "hyp:has-one-candidate-row")
+            if m is None:
+                ctx.count("hyp:fixed-model-NO-RESULT(total not proved)")
+                ctx.note("Fixed model returned no result on a generated case (n=%d): hypothesis of C01_lapjv_fixed_optimal not met" % cases[k]["n"])
+                continue
+            ctx.count("hyp:fixed-model-returns")
+            if g:
+                ctx.count("fixed-model-certified" + ("(theorem-covered)" if two else "(one-candidate rows: checker only)"))
+            elif two and res[k] is None:
+                res[k] = ("INTERNAL: the extracted (Fixed, eps 0) model returned a result that cert_ok rejects on an input "
+                          "satisfying the premises of the proved theorem C01_lapjv_fixed_optimal")
+            else:
+                ctx.count("fixed-model-uncertified(one-candidate rows, infinite duals)")
     ti = [k for k, c in enumerate(cases) if c["fn"] == "track" and not _bad(outs[k])]
     oks = ctx.run_model("entry_track_ok", [outs[k]["pairs"] for k in ti]) if ti else []
     pm_args, pm_own = [], []
